@@ -65,3 +65,16 @@ def selftest_library(run, ev, what):
         if idx not in failed:
             raise tlc.TLCError("binding self-test: corrupted trace (%s) accepted by Library.tla" % name)
     run.add("selftest", evaluations=len(muts), corrupted_traces_rejected=len(muts))
+
+
+def model_codes(run, label_lists, part="codes"):
+    """Trees!Code (k, nsym, consts) of arbitrary label lists, computed by TLC (Library.tla returns the model's code per line)"""
+    from harness import p1
+    ev = [{"id": 0, "kind": "header", "ntrees": 0, "nfun": 0, "norig": 0, "nextra": 0, "naifeyn": 0, "nuniq": 0, "nmatch": 0, "nsubs": 0, "full": False}]
+    for k, lab in enumerate(label_lists):
+        ev.append({"id": k + 1, "kind": "line", "i": k, "labels": list(lab), "wantCode": True, "full": False, "clsTree": -1, "clsGen": -1, "clsFit": -1,
+                   "match": -1, "kF": 0, "kU": 0, "lost": False, "exact": -1, "family": -1, "ar": [0]})
+    res, failed = tlc.judge("Library", ev, heap="4g")
+    run.add_tlc(res, part)
+    codes = {j["id"] - 1: j["code"] for j in res["json"] if isinstance(j, dict) and "code" in j}
+    return [codes[k] for k in range(len(label_lists))]
